@@ -117,13 +117,25 @@ func canon(v any) any {
 	return out
 }
 
-// subsetEqual: every key of impl is present in model with an equal value (objects compared
-// recursively as whole values below the top level).
+// subsetEqual: every key of impl is present in model with an equal value; nested objects are compared
+// the same way (recursively); keys starting with "_" are informational and ignored.
 func subsetEqual(impl, model map[string]any) (bool, string) {
 	for k, v := range impl {
+		if len(k) > 0 && k[0] == '_' {
+			continue
+		}
 		mv, ok := model[k]
 		if !ok {
 			return false, "model lacks " + k
+		}
+		if vm, ok := canon(v).(map[string]any); ok {
+			if mm, ok := canon(mv).(map[string]any); ok {
+				if ok2, where := subsetEqual(vm, mm); !ok2 {
+					return false, k + "." + where
+				}
+				continue
+			}
+			return false, k
 		}
 		if !reflect.DeepEqual(canon(v), canon(mv)) {
 			return false, k
